@@ -43,10 +43,9 @@ PROPS["C20"] = {
     "verus": ["stdext_groupingmap", "stdext_kmp"],
     "kani": [],
     "witness_always": ["stdext_groupingmap"],
-    "witness_bound": {"stdext_groupingmap": "scoped map: every history of length <= 6 over 2 keys x 2 values, both backing containers; KMP: every pattern of length <= 6 / text <= 11 over 2 letters and pattern <= 4 / text <= 8 over 3 letters"},
+    "witness_bound": {"stdext_groupingmap": "scoped map: every history of length <= 6 over 2 keys x 2 values, both backing containers; KMP: every pattern of length <= 6 / text <= 11 over 2 letters and pattern <= 4 / text <= 8 over 3 letters; iter_all -> FromIterator replay: every history of length <= 4 x every continuation of length <= 2 + closing all groups, rebuilt map against the model of the original; interner under a constant hasher (all hashes collide): 36 words incl. empty and non-ASCII, interned twice in 36 rotations, key equality / resolve / get checked after every step"},
     "unverified_callers": [
-        "IterAll / FromIterator replay (GAT iterators, rejected by Verus) - the 'replay rebuilds the same map' clause is NOT decided",
-        "Interner (str/String) - NOT decided",
+        "IterAll / FromIterator replay (GAT iterators, rejected by Verus) and the Interner (str/String): NOT proved, covered by the bounded driver only",
         "Tag::new / StaticTag uniqueness across threads - concurrency, not applicable to either verifier",
     ],
     "assumptions": ["Clone is the identity and the std hash/eq model holds for the key types"],
